@@ -66,7 +66,9 @@ func TestC05_Shield(t *testing.T) {
 		}).Draw(t, "expr")
 		phase := time.Duration(rapid.Int64Range(0, int64(time.Second)-1).Draw(t, "phase"))
 		cbh.UseFormatLogger = rapid.IntRange(0, 2).Draw(t, "formattingLogger") == 0
+		cbh.BlockEffects = rapid.IntRange(0, 2).Draw(t, "hangingSideEffects") == 0 // webhooks that never return
 		d := cbh.New(t, expr, F, R, P, phase)
+		cbh.BlockEffects = false
 		cbh.UseFormatLogger = false
 		defer d.Close()
 
